@@ -89,8 +89,13 @@ class Analyzer:
         fn = self.methods[name]
         summ = Summary()
         # state: (st, first) where st in {'S','C'} and first = no event seen yet
-        for st0 in ("S",):
-            self.block(fn.body, [(st0, True)], summ, name, depth=0)
+        # a state function is entered right after the previous one consumed its last token
+        entry = ("C", False) if name.startswith("scan_") else ("S", True)
+        for st0 in (entry,):
+            for rest in self.block(fn.body, [st0], summ, name, depth=0):
+                if isinstance(rest[0], str) and rest[0].startswith("#"):
+                    continue
+                summ.exits.add((None, rest[0]))  # falls off the end
         return summ
 
     def block(self, stmts: list[ast.stmt], states: list, summ: Summary, fname: str, depth: int) -> list:
@@ -219,7 +224,9 @@ class Analyzer:
                 if not cur:
                     break
             return list(dict.fromkeys(results))
-        if isinstance(s, (ast.Break, ast.Continue, ast.Pass)):
+        if isinstance(s, ast.Pass):
+            return [stt]
+        if isinstance(s, (ast.Break, ast.Continue)):
             return [("#" + type(s).__name__, stt)]  # type: ignore[list-item]
         return [stt]
 
